@@ -84,6 +84,7 @@ def run_case(c):
         meta = {}
         if c['cfg'].get('xf'): meta['key_transform_with_dump'] = c['cfg']['xf']
         if c['cfg'].get('auto_tags'): meta['auto_assign_tags'] = True
+        if c['cfg'].get('tag_key'): meta['tag_key'] = c['cfg']['tag_key']
         rt.bind_meta(cls, meta)
         x = rt.build_value(c['value'], reg)
         out['coq_t'] = rt.coq_ty(c['root'], reg)
